@@ -26,7 +26,9 @@ def run(ck):
         raise vlib.InfraError("driver failed rc=%s %s" % (d["rc"], d["err"][-1500:]))
     ck.trace("compact-calls", "Trace_Compact", "Trace.cfg", t, nchunks=16, balance=True, timeout=3400,
              what="disks, whole sub-trees (1-3 levels), sub-trees minus leaves, partial sibling groups, pentagon families at "
-                  "depth 1-3(4), unions, pentagon disks, isolated cells, multi-round sets, globe pieces, large sets; each in 3 "
+                  "depth 1-3(4), unions, pentagon disks, isolated cells, multi-round sets, globe pieces, large sets; model -> code "
+                  "scenarios of H3CompactAlgo (2-5 parents whose indexes share a residue modulo the round's size, or fill a run of "
+                  "slots, or sit at slots n-2 / n-1 so that probes wrap; complete and incomplete parents, pentagon parents); each in 3 "
                   "orders; uncompactCells with capacity n, n-1, n+3, 0, random and coarser resolution; uncompactCellsSize")
     ck.ev.assumptions += ["TLC 1.8 / JVM", "ndjson encodings", "the driver presents distinct valid same-resolution cells "
                           "(re-checked by the trace spec; other inputs are unconstrained)"]
